@@ -1,3 +1,5 @@
 SPECIFICATION Spec
+CONSTANTS
+  MaxT = 8
 INVARIANT Report
 CHECK_DEADLOCK FALSE
